@@ -1,4 +1,3 @@
-import json
 from typing import List, Optional, Tuple
 
 from .base import GenericModelCodeGenerator, KWAGRS_TEMPLATE, sort_kwargs, template
@@ -14,6 +13,7 @@ from ..dynamic_typing import (
     StringSerializable,
     Unknown
 )
+from ..utils import string_literal
 
 DEFAULT_ORDER = (
     "*",
@@ -93,5 +93,5 @@ class PydanticModelCodeGenerator(GenericModelCodeGenerator):
     def _get_field_kwargs(self, name: str, meta: MetaData, optional: bool, data: dict):
         body_kwargs = {}
         if name != data["name"]:
-            body_kwargs["alias"] = json.dumps(name, ensure_ascii=False)
+            body_kwargs["alias"] = string_literal(name)
         return body_kwargs
